@@ -274,6 +274,9 @@ func (env *CEnv) sel(n *Node) cval {
 		}
 	}
 	base := env.eval(n.Kids[0])
+	if iv, ok := base.V.(*IfaceV); ok {
+		base = cval{V: iv.V, T: iv.Dyn, Heap: base.Heap}
+	}
 	// tuple / numeric selectors
 	if tv, ok := base.V.(*TupleV); ok {
 		var idx int
@@ -355,11 +358,23 @@ func (env *CEnv) sel(n *Node) cval {
 func (env *CEnv) bin(n *Node) cval {
 	switch n.S {
 	case "&&":
-		return cval{V: And(env.term(n.Kids[0]), env.term(n.Kids[1]))}
+		l := env.term(n.Kids[0])
+		if l == TFalse {
+			return cval{V: TFalse}
+		}
+		return cval{V: And(l, env.term(n.Kids[1]))}
 	case "||":
-		return cval{V: Or(env.term(n.Kids[0]), env.term(n.Kids[1]))}
+		l := env.term(n.Kids[0])
+		if l == TTrue {
+			return cval{V: TTrue}
+		}
+		return cval{V: Or(l, env.term(n.Kids[1]))}
 	case "==>":
-		return cval{V: Implies(env.term(n.Kids[0]), env.term(n.Kids[1]))}
+		l := env.term(n.Kids[0])
+		if l == TFalse {
+			return cval{V: TTrue}
+		}
+		return cval{V: Implies(l, env.term(n.Kids[1]))}
 	case "<=>":
 		return cval{V: Eq(env.term(n.Kids[0]), env.term(n.Kids[1]))}
 	}
@@ -581,7 +596,7 @@ func (env *CEnv) call(n *Node) cval {
 			return cval{V: And(Neq(stv, IntLit(0)), App("cs_has", SBool, stv, k))}
 		}
 		return cval{V: Ite(Neq(stv, IntLit(0)), App("cs_get", SStr, stv, k), StrLit(""))}
-	case "ctxuser", "ctxpid", "ctxvalues":
+	case "ctxuser", "ctxpid", "ctxvalues", "ctxsession", "ctxcookie", "ctxdata":
 		r := env.eval(n.Kids[0])
 		ctx := env.ex.reqCtx(env.scratchState(), r.V)
 		return cval{V: env.ex.ctxLookup(env.scratchState(), ctx, strings.TrimPrefix(name, "ctx"))}
@@ -609,6 +624,45 @@ func (env *CEnv) call(n *Node) cval {
 	case "min":
 		a, b := env.term(n.Kids[0]), env.term(n.Kids[1])
 		return cval{V: Ite(Le(a, b), a, b)}
+	case "join":
+		v := env.eval(n.Kids[0])
+		sep := env.term(n.Kids[1])
+		xs := env.ex.symSliceArg(env.scratchState(), v.V)
+		if xs == nil {
+			cfail("join of %s", showValue(v.V))
+		}
+		return cval{V: App("str_join", SStr, env.ex.symArr(env.st, xs), xs.Len, sep)}
+	case "elem":
+		// elem(slice, i)
+		v := env.eval(n.Kids[0])
+		xs := env.ex.symSliceArg(env.scratchState(), v.V)
+		if xs == nil {
+			cfail("elem of %s", showValue(v.V))
+		}
+		return cval{V: Select(env.ex.symArr(env.st, xs), env.term(n.Kids[1]))}
+	case "encode_values1":
+		// url.Values{k: v}.Encode() as the executor models it
+		k, v := env.term(n.Kids[0]), env.term(n.Kids[1])
+		return cval{V: App("values_encode", SStr, App("mapput!String!String", SInt, IntLit(0), k, v))}
+	case "path_join":
+		return cval{V: App("path_join", SStr, env.term(n.Kids[0]), env.term(n.Kids[1]))}
+	case "bound":
+		// bound(closure, "name"): the value a closure captured for a free variable
+		v := env.eval(n.Kids[0])
+		cv, ok := v.V.(*ClosureV)
+		if !ok {
+			cfail("bound() of non-closure %s", showValue(v.V))
+		}
+		for i, fv := range cv.Fn.FreeVars {
+			if fv.Name() == n.Kids[1].S && i < len(cv.Bind) {
+				b := cv.Bind[i]
+				if p, ok := b.(*PtrV); ok {
+					return cval{V: env.ex.load(env.st, p, nil), T: fv.Type().(*types.Pointer).Elem()}
+				}
+				return cval{V: b, T: fv.Type()}
+			}
+		}
+		cfail("closure %s has no free variable %s", cv.Fn.Name(), n.Kids[1].S)
 	case "form":
 		r := env.eval(n.Kids[0])
 		return cval{V: App("form_value", SStr, reqBase(env.ex, env.scratchState(), r.V), env.term(n.Kids[1]))}
